@@ -37,37 +37,37 @@ type sfPert struct {
 }
 
 type sfEv struct {
-	T       int      `json:"t"`
-	I       int      `json:"i"`
-	Op      string   `json:"op"`
-	B       int      `json:"b"`
-	N       int      `json:"n"`
-	Ct      int      `json:"ct"`
-	Ver     int      `json:"ver"`  // snapshot format version of the file (part "file")
-	Zero    bool     `json:"zero"` // crafted payload: one flipped bit makes its CRC32 the all-zero value
-	OneWrite bool    `json:"onewrite"` // sessions and payload handed to the writer in a single Write call
-	BufKept  bool    `json:"bufkept"`  // the caller's buffer is unchanged after the write
-	ShrunkBefore bool `json:"shrunkbefore"` // IsShrunkSnapshotFile on the freshly written file
-	Size    int      `json:"size"`
-	Hsz     int      `json:"hsz"`
-	Blocks  []int    `json:"blocks"`
-	ReadOK  bool     `json:"readok"`
-	EOFZero bool     `json:"eofzero"` // a read after EOF returned data
-	VOK     bool     `json:"vok"`     // validator accepted the unmodified stream (all chunkings tried)
-	Flips   []sfPert `json:"flips"`
-	Truncs  []sfPert `json:"truncs"`
-	ShrinkOK bool    `json:"shrinkok"`
-	Rec     uint64   `json:"rec"` // file size recorded by the writer (GetPayloadSize + header)
-	Msg     string   `json:"msg,omitempty"`
+	T            int      `json:"t"`
+	I            int      `json:"i"`
+	Op           string   `json:"op"`
+	B            int      `json:"b"`
+	N            int      `json:"n"`
+	Ct           int      `json:"ct"`
+	Ver          int      `json:"ver"`          // snapshot format version of the file (part "file")
+	Zero         bool     `json:"zero"`         // crafted payload: one flipped bit makes its CRC32 the all-zero value
+	OneWrite     bool     `json:"onewrite"`     // sessions and payload handed to the writer in a single Write call
+	BufKept      bool     `json:"bufkept"`      // the caller's buffer is unchanged after the write
+	ShrunkBefore bool     `json:"shrunkbefore"` // IsShrunkSnapshotFile on the freshly written file
+	Size         int      `json:"size"`
+	Hsz          int      `json:"hsz"`
+	Blocks       []int    `json:"blocks"`
+	ReadOK       bool     `json:"readok"`
+	EOFZero      bool     `json:"eofzero"` // a read after EOF returned data
+	VOK          bool     `json:"vok"`     // validator accepted the unmodified stream (all chunkings tried)
+	Flips        []sfPert `json:"flips"`
+	Truncs       []sfPert `json:"truncs"`
+	ShrinkOK     bool     `json:"shrinkok"`
+	Rec          uint64   `json:"rec"` // file size recorded by the writer (GetPayloadSize + header)
+	Msg          string   `json:"msg,omitempty"`
 }
 
 type sfSim struct {
-	tailAll bool
+	tailAll  bool
 	oneWrite bool
-	rng  *rand.Rand
-	out  *bufio.Writer
-	tid  int
-	step int
+	rng      *rand.Rand
+	out      *bufio.Writer
+	tid      int
+	step     int
 }
 
 func (s *sfSim) emit(ev sfEv) {
